@@ -7,6 +7,7 @@ package main
 import (
 	"encoding/json"
 	"fmt"
+	"math"
 	"net/url"
 	"os"
 	"path/filepath"
@@ -288,6 +289,11 @@ func runSession(c Chain, requests []int) (key, msg string, delivered int, ended 
 // runSessionFrom: the first request uses the given start offset. An offset applies to the
 // page it is given to: it skips min(offset, items on that page) items of the root page.
 func runSessionFrom(c Chain, requests []int, firstStart int) (key, msg string, delivered int, ended bool) {
+	defer func() {
+		if x := recover(); x != nil {
+			key, msg, ended = "panic", fmt.Sprint(x), true
+		}
+	}()
 	theWorld = world.New()
 	theWorld.Install()
 	jtp.VerifPurgeCache()
@@ -313,7 +319,12 @@ func runSessionFrom(c Chain, requests []int, firstStart int) (key, msg string, d
 		if cont == nil {
 			break
 		}
+		// a negative request stands for the largest one there is; the comparisons below use what
+		// was asked for as a count
 		items, next, nextStart := cont.Harvest(uint(n), start)
+		if n < 0 {
+			n = math.MaxInt
+		}
 		real := 0
 		for i, it := range items {
 			switch v := it.(type) {
@@ -455,7 +466,8 @@ func report(r *ev.Report, c Chain, reqs []int, key, msg string) {
 }
 
 func explore(r *ev.Report, c Chain, curFile string) {
-	if (c.cyclic() || len(c.Pages) > 8) && curFile != "" {
+	// every chain is announced: a request for "everything" may end the worker (out of memory is not a panic)
+	if curFile != "" {
 		par.BeginCase(curFile, session{Chain: c})
 		defer par.EndCase()
 	}
@@ -502,6 +514,25 @@ func explore(r *ev.Report, c Chain, curFile string) {
 					report(r, c, []int{a, b, e, 7, 7}, key, msg)
 				}
 				r.Transitions += 5
+			}
+		}
+	}
+	// "everything that is left": requests near the largest number there is, first, after a
+	// small request (so that they meet a start offset above zero), and at start offsets
+	if !c.cyclic() {
+		for _, huge := range []int{-1, math.MaxInt, 1 << 48, 1<<32 + 1} {
+			for _, reqs := range [][]int{{huge}, {huge, 7}, {1, huge}, {2, huge, 7}, {3, 1, huge}} {
+				if key, msg, _, _ := runSession(c, reqs); key != "" {
+					report(r, c, reqs, "huge-request:"+key, msg)
+				}
+				r.Transitions += int64(len(reqs))
+			}
+			for _, st := range []int{1, 2, 5} {
+				reqs := []int{huge, 7}
+				if key, _, _, _ := runSessionFrom(c, reqs, st); key != "" {
+					r.Violation("offset:huge-request:"+key, session{c, reqs, st})
+				}
+				r.Transitions += 2
 			}
 		}
 	}
@@ -573,7 +604,7 @@ func main() {
 	r := ev.New("C10", "model_checking",
 		"page chains: kind {Collection, OrderedCollection} x root items {absent,0,1,2} x page-size vectors (<=3 pages of size 0..2 quick, <=4 pages of size 0..3 thorough) x placement {embedded, remote, alternating, reference stub {id,type}, reference stub {id}} x "+
 			"tail {absent, null, self-cycle, cycle to each earlier page, 404, wrong type, non-JSON} (+ single-value item lists, + pages that also carry first/last/prev as real servers send them); + a size phase of chains of 33, 40 and 70 pages (dense and with three empty pages between items, embedded and remote, ending / failing / cyclic) walked in one request, in sevens and one at a time; per chain an explicit-state search over request sequences with sizes {0,1,2,3,4,7} "+
-			"(state = items delivered so far), each transition replayed on a fresh Collection through the continuation protocol, plus all unmerged request pairs and first requests with start offsets 1,2,3,5; distinct_nontrivial = chains with at least two pages or a cycle")
+			"(state = items delivered so far), each transition replayed on a fresh Collection through the continuation protocol, plus all unmerged request pairs and first requests with start offsets 1,2,3,5; on acyclic chains also requests of 2^32+1, 2^48, the largest int and the largest uint, first, after small requests and at start offsets; distinct_nontrivial = chains with at least two pages or a cycle")
 	debug.SetMaxStack(64 << 20)
 	if *ev.FlagReplay != "" {
 		var s session
@@ -612,10 +643,14 @@ func main() {
 		var s session
 		if b, err := os.ReadFile(cur); err == nil && json.Unmarshal(b, &s) == nil {
 			s.Requests = []int{len(s.Chain.Pages) + 8}
-			if s.Chain.cyclic() {
+			switch {
+			case s.Chain.cyclic():
 				r.Violation("nontermination-or-crash:cyclic", s)
-			} else {
+			case len(s.Chain.Pages) > 8:
 				r.Violation("nontermination-or-crash:long-chain", s)
+			default:
+				s.Requests = []int{-1}
+				r.Violation("nontermination-or-crash:acyclic", s)
 			}
 		} else {
 			ev.Fatal("a worker died outside a cyclic chain: %s", filepath.Base(cur))
